@@ -185,9 +185,10 @@ func execUnreadableParent(sc *Scenario, env *Env) *Result {
 	switch {
 	case timedOut || code == exitHang:
 		res.Status, res.Note = "crash", "child of the unreadable-file scenario hung: "+firstLine(lastNonEmpty(stderr))
-	case code == 1 && strings.Contains(stderr, "Error occured while reading") && !strings.Contains(stderr, "panic:"):
-		// the program gave up with a message naming the file: nothing was computed with other content
-		res.add("fault.pooled-file-unreadable", 1)
+	case code == 1 && !strings.Contains(stderr, "panic:") && !strings.Contains(stderr, "goroutine "):
+		// the program gave up (log.Fatal: exit status 1 with a message; for most files "Error occured while reading <file>",
+		// for an output configuration the message of the regeneration path): nothing was computed with other content
+		res.add("fault.pooled-file-unreadable-or-vanished.process-ended", 1)
 		res.add("reach.process-ended-at-the-unreadable-file", 1)
 	default:
 		res.Status, res.Note = "crash", fmt.Sprintf("child of the unreadable-file scenario: exit %d: %s", code, firstLine(lastNonEmpty(stderr)))
@@ -197,6 +198,53 @@ func execUnreadableParent(sc *Scenario, env *Env) *Result {
 
 func execUnreadable(sc *Scenario, env *Env, root string, refs []*lineRef, order []int, run func(order []int, spec *SchedSpec, disk *SimDisk, abortAt int) *BatchOutcome, res *Result) []batchViol {
 	r := NewRNG(sc.Sched.Sub).Sub("unreadable", 0)
+	// the parameter folder of the scenario becomes a copy of the shipped one (normally a link to it), so that the
+	// fault can also hit crop parameter files and tables
+	if link := filepath.Join(root, "parameter"); true {
+		if fi, err := os.Lstat(link); err == nil && fi.Mode()&os.ModeSymlink != 0 {
+			os.Remove(link)
+			if copyDir(env.ParamDir, link) != nil {
+				os.RemoveAll(link)
+				os.Symlink(env.ParamDir, link)
+			}
+		}
+	}
+	// the crop parameter files of the format no project of this batch uses carry another value (a folder calibrated in
+	// one format only): nothing may fall back on them
+	if pdir := filepath.Join(root, "parameter"); !isLink(pdir) {
+		yml, classic := false, false
+		for _, w := range sc.Worlds {
+			if w.Cfg.CropParamFmt == "yml" {
+				yml = true
+			} else {
+				classic = true
+			}
+		}
+		if yml != classic {
+			ents, _ := os.ReadDir(pdir)
+			for _, e := range ents {
+				name := e.Name()
+				if !strings.HasPrefix(name, "PARAM") || strings.HasSuffix(name, ".yml") == yml {
+					continue
+				}
+				b, err := os.ReadFile(filepath.Join(pdir, name))
+				if err != nil {
+					continue
+				}
+				ed := cropEdit{Name: "MAXAMAX", Val: "11"}
+				var out string
+				if strings.HasSuffix(name, ".yml") {
+					out, err = editYml(string(b), ed)
+				} else {
+					out, err = editClassic(string(b), ed)
+				}
+				if err == nil {
+					os.WriteFile(filepath.Join(pdir, name), []byte(out), 0o644)
+					res.add("reach.unused-format-crop-file-differs", 1)
+				}
+			}
+		}
+	}
 	probe := run(order, sc.Sched, NewSimDisk(), 0)
 	vs := checkBatchOutcome(sc, order, refs, probe, res, false)
 	// first loads: the first release of a run parked at the pooled-file Get of a path
@@ -209,7 +257,8 @@ func execUnreadable(sc *Scenario, env *Env, root string, refs []*lineRef, order 
 	for _, rel := range probe.Released {
 		if rel.Point == "pool.get" && !seen[rel.Detail] {
 			seen[rel.Detail] = true
-			if strings.HasPrefix(rel.Detail, root+"/project/") {
+			// project files and the scenario's own copies of the parameter folder (never the shipped parameter folder itself)
+			if strings.HasPrefix(rel.Detail, root+"/project/") || strings.HasPrefix(rel.Detail, root+"/pcustom/") || strings.HasPrefix(rel.Detail, root+"/pless/") || (strings.HasPrefix(rel.Detail, root+"/parameter/") && !isLink(filepath.Join(root, "parameter"))) {
 				loads = append(loads, load{rel.Dec, rel.Task, rel.Detail})
 			}
 		}
@@ -218,7 +267,18 @@ func execUnreadable(sc *Scenario, env *Env, root string, refs []*lineRef, order 
 		return vs // coarse granularity (no parking at pooled-file Gets) or nothing loaded
 	}
 	l := loads[r.Intn(len(loads))]
-	if r.Bool(0.4) {
+	if r.Bool(0.35) {
+		// a crop parameter file (loaded at the first sowing of that crop, asked for again at every later sowing)
+		var crops []load
+		for _, c := range loads {
+			if strings.Contains(c.path[strings.LastIndexByte(c.path, '/')+1:], "PARAM") {
+				crops = append(crops, c)
+			}
+		}
+		if len(crops) > 0 {
+			l = crops[r.Intn(len(crops))]
+		}
+	} else if r.Bool(0.4) {
 		// the project configuration: the file whose absence has a fallback (defaults)
 		for _, c := range loads {
 			if strings.HasSuffix(c.path, "/config.yml") {
@@ -230,6 +290,35 @@ func execUnreadable(sc *Scenario, env *Env, root string, refs []*lineRef, order 
 	sp := *sc.Sched
 	sp.Decisions, sp.Policy = probe.Decisions, ""
 	away := l.path + ".unreadable"
+	n := len(probe.Decisions)
+	// (not the project configuration: a run that finds no config.yml writes a default one through the result-file seam and
+	// reads it back from the real disk - the simulated disk cannot play that round trip, see DESIGN section 10)
+	if r.Bool(0.4) && l.dec+2 < n && !strings.HasSuffix(l.path, "/config.yml") {
+		// variant: the file vanishes for good some time AFTER the session has loaded it (clean-up script, unmounted
+		// share). The session holds its content; whoever needs it later must get exactly that content or the program
+		// must give up - never a substitute.
+		at := r.Range(l.dec+1, n-1)
+		gone := false
+		batchFaultHook = func(k int) {
+			if k >= at && !gone {
+				gone = true
+				os.Rename(l.path, away)
+			}
+		}
+		res.add("fault.pooled-file-vanishes-after-its-first-load", 1)
+		out := run(order, &sp, NewSimDisk(), 0)
+		batchFaultHook = nil
+		if gone {
+			os.Rename(away, l.path)
+		}
+		res.add("reach.session-survived-the-vanished-file", 1)
+		tag := fmt.Sprintf("[%s removed at decision %d, after the session had loaded it at decision %d] ", strings.TrimPrefix(l.path, root+"/"), at, l.dec)
+		for _, v := range checkBatchOutcome(sc, order, refs, out, res, false) {
+			v.detail = tag + v.detail
+			vs = append(vs, v)
+		}
+		return vs
+	}
 	state := 0
 	batchFaultHook = func(k int) {
 		switch {
@@ -510,4 +599,9 @@ func execReplaced(sc *Scenario, env *Env, root string, refs []*lineRef, order []
 		}
 	}
 	return vs
+}
+
+func isLink(p string) bool {
+	fi, err := os.Lstat(p)
+	return err == nil && fi.Mode()&os.ModeSymlink != 0
 }
